@@ -125,15 +125,17 @@ impl notify::EventHandler for NotifyEventHandler {
 
                 for path in event.paths {
                     let paths = match event.kind {
+                        // The content of the parent directory changes too when
+                        // an entry is created, removed or renamed.
+                        notify::EventKind::Create(_)
+                        | notify::EventKind::Remove(_)
+                        | notify::EventKind::Modify(notify::event::ModifyKind::Name(_)) => {
+                            match path.parent() {
+                                Some(parent) => vec![&path, parent],
+                                None => vec![&*path],
+                            }
+                        }
                         notify::EventKind::Any | notify::EventKind::Modify(_) => vec![&*path],
-                        notify::EventKind::Create(_) => match path.parent() {
-                            Some(parent) => vec![&path, parent],
-                            None => vec![&*path],
-                        },
-                        notify::EventKind::Remove(_) => match path.parent() {
-                            Some(parent) => vec![parent],
-                            None => vec![],
-                        },
                         notify::EventKind::Access(_) | notify::EventKind::Other => return,
                     };
                     let ids = paths
